@@ -26,6 +26,7 @@ from contracts import census as CENSUS     # noqa: E402
 from contracts import lemmas as LEMMAS     # noqa: E402
 
 from contracts import tap as TAP           # noqa: E402
+from contracts import dbfiles as DBFILES   # noqa: E402
 
 DBFUNCS = ["server.Mailbox.open", "server.Mailbox._touch", "server.Mailbox.get_messages", "server.Mailbox._add_message",
            "server.Mailbox.add_message", "server.Mailbox.close", "server.AppNamespace._get_nameplate_ids",
@@ -74,6 +75,15 @@ PROPS = {
             "functions_all": ["server.AppNamespace.get_nameplate_ids", "server_websocket.WebSocketServer.handle_list"],
             "assumptions": A_PY + A_SQL + A_FW,
             "paper_steps": ["C18.config_independent: every contract is proved for symbolic allow_list / usage_db / blur_usage / log_requests, and no postcondition about the channel tables, the outboxes or connection state mentions them (except handle_list's answer): equal runs (DESIGN 9)"]},
+    "C19": {"lemmas": [DBFILES.c19],
+            "assumptions": ["A13 os.path.exists / tempfile.mkstemp / os.rename (atomic replace within a directory) / shutil.copy behave as documented; a crash is process death between two such calls",
+                            "A6/A7 sqlite3: legacy transaction control, executescript commits first and autocommits each statement unless the script says BEGIN; an empty file is an empty database; a non-database file raises DatabaseError at the first statement that reads it",
+                            "A8 atomic durable commit", "file contents are partitioned into classes (absent / not a database / database with given DDL set and version rows); the content inside a class is symbolic"],
+            "paper_steps": ["directory-entry durability across power loss is not modelled"],
+            "explanation": "symbolic execution of the real ASTs of database.py over the file-system model; exhaustive over content classes x crash points"},
+    "C20": {"lemmas": [DBFILES.c20],
+            "assumptions": ["A13", "A6/A7 (executescript semantics incl. explicit BEGIN/COMMIT)", "A8", "records of pre-existing tables are one opaque symbolic value"],
+            "paper_steps": [], "explanation": "as C19; the real upgrade script and schema files are parsed on every run"},
 }
 for _p in PROPS.values():
     _p.setdefault("level", "proof")
